@@ -403,6 +403,14 @@ class Check:
         if not pr["ok"]:
             self.proof_failures.append({"what": "Properties/%s.v" % self.pid, "log": pr["log"][-3000:],
                                         "not_closed": pr["not_closed"]})
+        if self.tier == "thorough" and ok and pr["ok"]:
+            # independent re-check of the compiled property file and everything it depends on
+            rc, out = _run(["coqchk", "-silent", "-o", "-R", THEORIES, "Tempren", "Tempren.Properties.%s" % self.pid], 1800, cwd=COQ)
+            m = re.search(r"\* Axioms:\s*(.*?)\n\s*\n", out, re.S)
+            axioms = m.group(1).strip() if m else "?"
+            self.coverage["coqchk"] = {"rc": rc, "axioms": axioms}
+            if rc != 0 or axioms != "<none>":
+                self.proof_failures.append({"what": "coqchk -o Tempren.Properties.%s" % self.pid, "log": out[-2000:]})
         return ok and pr["ok"] and not bad
 
     # ---- verdict
